@@ -67,7 +67,7 @@ Print Assumptions C17_dot_node_keys_per_node.
 
 (* what first_occ means: no key twice, every key present *)
 Theorem C17_first_occ_set : forall l, NoDup (first_occ l) /\ (forall k, In k (first_occ l) <-> In k l).
-Proof. intros l. split; [apply first_occ_NoDup|intros k; apply first_occ_In]. Qed.
+Proof. exact all_first_occ_set. Qed.
 Print Assumptions C17_first_occ_set.
 
 Theorem C17_dot_no_key_defined_twice : forall u a isroot tn s, NoDup (ids_t s) ->
@@ -116,10 +116,7 @@ Theorem C17_dot_exclusion_edges : forall u s, NoDup (ids_t s) ->
   dot_edges u true s = flat_map (fun c => dot_edge u (s, c) :: dot_edges u true c) (rch s) /\
   dot_edges u false s = flat_map (fun c => dot_edges u true c) (rch s) /\
   Permutation (dot_edges u true s) (map (fun c => dot_edge u (s, c)) (rch s) ++ dot_edges u false s).
-Proof.
-  intros u s H. exact (conj (dot_edges_with_children u s)
-                            (conj (dot_edges_without_children u s H) (dot_edges_exclusion_perm u s H))).
-Qed.
+Proof. exact all_dot_exclusion_edges. Qed.
 Print Assumptions C17_dot_exclusion_edges.
 
 (* ... and removes the start node's definition only: the other definitions
@@ -143,13 +140,40 @@ Theorem C17_dot_edges_between_defined_nodes : forall u a isroot tn s x y l, NoDu
 Proof. exact dot_edges_closed. Qed.
 Print Assumptions C17_dot_edges_between_defined_nodes.
 
+(* the DOT document as text ([dot_doc]: header, default definitions, one line
+   per definition and per edge of the lists above, rendered with [attr_str]).
+   Attribute dicts behave as Python dicts under a mapper's [data[k] = v]: *)
+Theorem C17_dot_mapper_sets_one_attribute : forall k v d,
+  aget k (dset k v d) = Some v /\
+  (forall k2, k2 <> k -> aget k2 (dset k v d) = aget k2 d) /\
+  map fst (dset k v d) = (if existsb (text_eqb k) (map fst d) then map fst d else map fst d ++ [k]).
+Proof. exact all_dot_mapper_sets_one_attribute. Qed.
+Print Assumptions C17_dot_mapper_sets_one_attribute.
+
+(* the document is the rendering of exactly the definitions and edges above *)
+Theorem C17_dot_document : forall o isroot tn s,
+  dot_doc o isroot tn s
+  = dot_head o tn
+    ++ map (ddef_line (do_nmap o)) (dot_nodes true (do_unique o) (do_add_self o) isroot tn s)
+    ++ [[]; D_edges]
+    ++ map (dedge_line (do_emap o)) (dot_edges (do_unique o) (do_add_self o) s)
+    ++ [[125%Z]].
+Proof. reflexivity. Qed.
+Print Assumptions C17_dot_document.
+
+(* two different int data_ids never print as the same DOT key *)
+Theorem C17_dot_int_keys_print_injectively : forall a b,
+  key_text (KD (DInt a)) = key_text (KD (DInt b)) -> a = b.
+Proof. exact key_text_int_inj. Qed.
+Print Assumptions C17_dot_int_keys_print_injectively.
+
 (* =================================================================== Mermaid *)
 (* id_to_idx: the distinct keys in first-occurrence order, numbered
    consecutively from 0 (start node included) or 1 *)
 Theorem C17_mermaid_table : forall u a s,
   map fst (mer_map u a s) = first_occ (map (key u) (export a s)) /\
   map snd (mer_map u a s) = seq (if a then 0 else 1) (length (first_occ (map (key u) (export a s)))).
-Proof. intros u a s. exact (conj (mer_map_keys u a s) (mer_map_indices u a s)). Qed.
+Proof. exact all_mermaid_table. Qed.
 Print Assumptions C17_mermaid_table.
 
 (* node lines: one per table entry, in order; line i shows the name of the
@@ -159,11 +183,7 @@ Theorem C17_mermaid_node_lines : forall u a s,
   (forall i nm r, In (i, nm, r) (mer_nodes u a s) ->
      exists n, In (key u n, i) (mer_map u a s) /\ find (has_key u (key u n)) (export a s) = Some n /\
                nm = rname n /\ r = Nat.eqb i 0).
-Proof.
-  intros u a s. split.
-  - rewrite mer_nodes_indices, mer_map_indices. reflexivity.
-  - exact (mer_nodes_lines u a s).
-Qed.
+Proof. exact all_mermaid_node_lines. Qed.
 Print Assumptions C17_mermaid_node_lines.
 
 (* edge lines: no table lookup fails, and decoding the two indices of every
@@ -182,7 +202,7 @@ Theorem C17_mermaid_templates :
   tokenize MERMAID_DEFAULT_EDGE_TEMPLATE_TYPED
     = Some [TField F_from_id; TLit S_tarrow1; TField F_kind; TLit S_tarrow2; TField F_to_id] /\
   tokenize MERMAID_DEFAULT_NODE_TEMPLATE = Some [TField F_node_name].
-Proof. exact (conj edge_template_tokens (conj typed_edge_template_tokens node_template_tokens)). Qed.
+Proof. exact all_mermaid_templates. Qed.
 Print Assumptions C17_mermaid_templates.
 
 Theorem C17_mermaid_line_text : forall i j k nm,
@@ -190,10 +210,7 @@ Theorem C17_mermaid_line_text : forall i j k nm,
   mer_edge_text (Some i, Some j, Some k) = Some (dec i ++ S_tarrow1 ++ k ++ S_tarrow2 ++ dec j) /\
   mer_node_text (i, nm, false) = Some (dec i ++ [40; 34]%Z ++ nm ++ [34; 41]%Z) /\
   undec (dec i) = Some i.
-Proof.
-  intros i j k nm.
-  exact (conj (mer_edge_text_plain i j) (conj (mer_edge_text_typed i j k) (conj (mer_node_text_plain i nm) (undec_dec i)))).
-Qed.
+Proof. exact all_mermaid_line_text. Qed.
 Print Assumptions C17_mermaid_line_text.
 
 Theorem C17_mermaid_every_edge_line_renders : forall u a s e, In e (mer_edges u a s) -> mer_edge_text e <> None.
@@ -244,12 +261,7 @@ Theorem C17_rdf_attributes_of_node : forall fx a s g,
   (forall k, In (TKind g k) (rdf_of_node fx a s) <-> exists n, In n (export a s) /\ g = RLit (rdid n) /\ rkind n = Some k) /\
   (forall i, In (TIndex g i) (rdf_of_node fx a s) <->
              exists p c, In p (pre s) /\ nth_error (rch p) i = Some c /\ g = RLit (rdid c)).
-Proof.
-  intros fx a s g. split; [|split].
-  - intros nm. apply rdf_of_node_name.
-  - intros k. apply rdf_of_node_kind.
-  - intros i. apply rdf_of_node_index.
-Qed.
+Proof. exact all_rdf_attributes_of_node. Qed.
 Print Assumptions C17_rdf_attributes_of_node.
 
 Theorem C17_rdf_attributes_of_tree : forall fx tn root g,
@@ -259,12 +271,7 @@ Theorem C17_rdf_attributes_of_tree : forall fx tn root g,
              exists n, In n (pre_f (rch root)) /\ g = RLit (rdid n) /\ rkind n = Some k) /\
   (forall i, In (TIndex g i) (rdf_of_tree fx tn root) <->
              exists p c, In p (pre root) /\ nth_error (rch p) i = Some c /\ g = RLit (rdid c)).
-Proof.
-  intros fx tn root g. split; [|split].
-  - intros nm. apply rdf_of_tree_name.
-  - intros k. apply rdf_of_tree_kind.
-  - intros i. apply rdf_of_tree_index.
-Qed.
+Proof. exact all_rdf_attributes_of_tree. Qed.
 Print Assumptions C17_rdf_attributes_of_tree.
 
 (* ============================================================== non-vacuity *)
